@@ -6,15 +6,18 @@ LEVEL = "proof"
 RULE = ("corpus first; small-scope exhaustive (all packets up to N bytes over the boundary alphabet "
         "{00,01,41,7f,80,ff} x all operation sequences up to depth D; quick N=3,D=2 sampled + random longer; "
         "thorough N=4,D=2 exhaustive, N<=6,D<=4 sampled) plus VarInt/string codec cases (all continuation "
-        "classes of 1-6 byte encodings, stratified 32-bit values). A case is non-trivial if at least one "
-        "operation succeeds; distinct = distinct implementation output lines.")
+        "classes of 1-6 byte encodings, stratified 32-bit values) plus the Unreal 2 string decoder as a reader "
+        "operation (su2: every length byte 0-255 x plain / decorated / stray-0x01 / cut by one byte / ending the "
+        "packet, colour escapes of control characters and escapes cut by the end of the text, random strings). "
+        "A case is non-trivial if at least one operation succeeds; distinct = distinct implementation output lines.")
 ASSUMPTIONS = ["model is hand-written; tied to the code by running both on the same operation sequences",
-               "from_utf8 / from_utf16 of std are mirrored by Gd.validUtf8 / Gd.utf16Decode (compared on every string read)"]
-TRUSTED = ["harness + orchestrator (Rust/Python) compare canonical text", "hand-written Lean model of buffer.rs / minecraft types.rs codecs, checked against the code on every run"]
+               "from_utf8 / from_utf16 of std are mirrored by Gd.validUtf8 / Gd.utf16Decode (compared on every string read)",
+               "encoding_rs (windows-1252, UTF-16LE without BOM handling) is mirrored by Gd.cp1252Decode / Gd.utf16Decode (compared on every su2 read, and against Python's codecs by the reference)"]
+TRUSTED = ["harness + orchestrator (Rust/Python) compare canonical text", "hand-written Lean model of buffer.rs / minecraft types.rs codecs / Unreal2StringDecoder, checked against the code on every run"]
 
 ALPHA = ["00", "01", "41", "7f", "80", "ff"]
 OPS_L = ["u1", "u2", "u4", "u8", "i1", "i2", "i4", "i8", "mv-2", "mv-1", "mv0", "mv1", "mv3", "s8", "s8:41", "sl", "sl:41",
-         "s16l", "s16b", "s16l:4100", "sw0", "sw1", "sw2", "vi", "vs"]
+         "s16l", "s16b", "s16l:4100", "sw0", "sw1", "sw2", "su2", "vi", "vs"]
 OPS_B = [o for o in OPS_L if o not in ("vi", "vs")]
 
 
@@ -29,6 +32,121 @@ def ref_varint(v):
         else:
             out.append(b)
             return bytes(out)
+
+
+# ---- Unreal 2 strings (reader operation `su2`)
+
+ESC = 0x1b
+
+
+def u2_wire(chars, ucs2, stray=False, length=None):
+    """wire form of a string given as code points (below 0x100 for Latin-1, BMP for UCS-2): length byte
+    (override with `length`), optional stray 0x01, the bytes"""
+    if ucs2:
+        body = b"".join(c.to_bytes(2, "little") for c in chars)
+        lb = 0x80 | (len(chars) if length is None else length)
+        return bytes([lb]) + (b"\x01" if stray else b"") + body
+    body = bytes(chars)
+    return bytes([len(body) if length is None else length]) + body
+
+
+# texts whose cleaning is the interesting part (code points; all below 0x100 so that both encodings carry them)
+U2_TEXTS = [
+    [],
+    [0x41, ESC, 0x01, 0x1a, ESC, 0x42],              # escape made of control characters and an ESC
+    [0x41, ESC, 0x00, 0x00, 0x00, 0x42],              # escape made of NULs
+    [ESC, ESC, ESC, ESC, 0x58],                       # an escape swallows escapes
+    [ESC, 0x01, 0x02, 0x03, ESC, 0x04, 0x05, 0x06, 0x59],
+    [0x41, 0x42, ESC],                                # escapes cut by the end of the text: 0, 1, 2 components
+    [0x41, 0x42, ESC, 0x01],
+    [0x41, 0x42, ESC, 0x01, 0x02],
+    [0x41, 0x42, ESC, 0x43, 0x44, 0x45],              # a complete one at the very end
+    [ESC],
+    [ESC, 0x1a],
+    [0x00, 0x01, 0x41, 0x01, 0x00],                   # control characters uncover NULs at both ends
+    [0x00, ESC, 0x41, 0x42, 0x43, 0x00, 0x5a, 0x00],  # an escape uncovers a leading NUL; an inner NUL stays
+    [0x00, 0x00, 0x00],
+    [0x41, 0x00, 0x42, 0x00],
+    list(range(0x01, 0x20)) + [0x41],                 # every control character (01-1a go, 1c-1f stay, 1b eats three)
+    [0x1c, 0x1d, 0x1e, 0x1f, 0x20, 0x7f],
+    list(range(0x80, 0xa0)),                          # the windows-1252 block
+    [0xe9, ESC, 0xe9, 0x80, 0xff, 0xe9, 0xa0, 0xff],
+    [0x01] * 5,
+    [0x01, 0x41],                                     # text that starts with 0x01: for UCS-2 the code unit is 01 00
+]
+
+
+def gen_su2(tier, rnd, add):
+    en = ["L", "B"]
+    k = 0
+    # every length byte, with the announced bytes present / decorated / one byte short / ending the packet
+    for lb in range(256):
+        ucs2 = lb >= 0x80
+        nch = lb & 0x7f
+        for variant in ("plain", "decorated", "stray", "short", "end", "endstray"):
+            if variant in ("stray", "endstray") and not ucs2:
+                continue
+            if variant == "decorated":
+                chars = [rnd.choice([0x41, 0x42, ESC, 0x01, 0x1a, 0x00, 0xe9, 0x85, 0x1c]) for _ in range(nch)]
+            else:
+                chars = [0x41 + (i % 26) for i in range(nch)]
+            w = u2_wire(chars, ucs2, stray=variant in ("stray", "endstray"))
+            if variant == "short":
+                if len(w) == 1:
+                    continue
+                w = w[:-1]
+                pkt, ops = b"\x09" + w, "u1 su2 u1"
+            elif variant in ("end", "endstray"):
+                pkt, ops = b"\x09" + w, "u1 su2 su2 mv-1 u1"
+            else:
+                pkt, ops = b"\x09" + w + b"\x02\x43\x00\x07", "u1 su2 su2 u1 su2"
+            k += 1
+            add(f"reader {en[k % 2]} {pkt.hex()} {ops}")
+    # cleaning: each text in both encodings, with and without the stray byte, followed by another string
+    for chars in U2_TEXTS:
+        for ucs2, stray in ((False, False), (True, False), (True, True)):
+            w = u2_wire(chars, ucs2, stray)
+            k += 1
+            add(f"reader {en[k % 2]} {(w + bytes([1, 0x5a, 0x07])).hex()} su2 su2 u1 su2")
+            k += 1
+            add(f"reader {en[k % 2]} {(bytes([0x30, 0x31]) + w).hex()} mv2 su2 su2")
+    # UCS-2 only: characters outside the BMP are ONE character of an escape; ill-formed UTF-16 is refused
+    for units in ([0x41, ESC, 0xd83d, 0xde00, 0x42, 0x43, 0x44], [ESC, 0xd83d, 0xde00, 0xd83d, 0xde00, 0xd83d, 0xde00, 0x45],
+                  [0xd83d, 0xde00], [0xd83d], [0xde00, 0x41], [0x41, 0xd83d], [0xfeff, 0x41], [0xfffe, 0x41], [0x0100, 0x011a, 0x011b],
+                  [0x20ac, ESC, 0x20ac, 0x20ac, 0x20ac, 0x20ac], [0x41, ESC, 0xd83d]):
+        for stray in (False, True):
+            w = u2_wire(units, True, stray)
+            k += 1
+            add(f"reader {en[k % 2]} {(w + bytes([0x07])).hex()} su2 u1 su2")
+    # the stray byte is not counted by the length byte: ambiguous and boundary placements
+    for hexs in ("80", "8001", "800101", "8101", "810100", "81010100", "8101014100", "80018001", "ff", "7f", "00", "0000", "0100", "01",
+                 "8201410042", "82014100", "820141004200"):
+        k += 1
+        add(f"reader {en[k % 2]} {hexs} su2 su2 su2")
+    # random strings, random cuts, random positions
+    alpha = [0x00, 0x01, 0x1a, ESC, 0x1c, 0x41, 0x42, 0x7f, 0x80, 0x9d, 0xe9, 0xff]
+    for _ in range(400 if tier == "quick" else 20000):
+        parts = []
+        for _ in range(rnd.choice([1, 1, 2, 3])):
+            ucs2 = rnd.random() < 0.5
+            n = rnd.choice([0, 1, 2, 3, 4, 5, 8, 16, 40, 127])
+            if ucs2 and rnd.random() < 0.3:
+                chars = [rnd.choice(alpha + [0x0100, 0xd83d, 0xde00, 0x20ac, 0xfeff]) for _ in range(n)]
+            else:
+                chars = [rnd.choice(alpha) for _ in range(n)]
+            length = None
+            if rnd.random() < 0.15:
+                length = max(0, min(127, n + rnd.choice([-2, -1, 1, 2, 50])))
+            parts.append(u2_wire(chars, ucs2, stray=ucs2 and rnd.random() < 0.4, length=length))
+        pkt = b"".join(parts)
+        if rnd.random() < 0.3 and pkt:
+            pkt = pkt[:rnd.randrange(len(pkt) + 1)]
+        if rnd.random() < 0.2:
+            pkt += bytes(rnd.randrange(256) for _ in range(rnd.choice([1, 2, 5])))
+        ops = ["su2"] * rnd.choice([1, 2, 3, 4])
+        if rnd.random() < 0.3:
+            ops.insert(rnd.randrange(len(ops) + 1), rnd.choice(["u1", "mv1", "mv-1", "s8", "u2"]))
+        add(f"reader {rnd.choice(en)} {pkt.hex() or '-'} " + " ".join(ops))
 
 
 def gen_cases(tier, seed):
@@ -85,6 +203,7 @@ def gen_cases(tier, seed):
         ops = OPS_L if en == "L" else OPS_B
         d = rnd.choice([1, 2, 3, 4, 4, 6])
         add(f"reader {en} {''.join(pk) or '-'} " + " ".join(rnd.choice(ops) for _ in range(d)))
+    gen_su2(tier, rnd, add)
     # VarInt: encodings by continuation class, 1..6 bytes
     payloads = [0x00, 0x01, 0x7f, 0x0f, 0x10, 0x40, 0x08, 0x07]
     for L in range(1, 7):
@@ -151,6 +270,61 @@ def ref_vs(data, pos):
     except UnicodeDecodeError:
         return None
     return text, j + res
+
+
+def _w1252(b):
+    """windows-1252 as the WHATWG encoding standard (and hence encoding_rs) decodes it: the five bytes the
+    Microsoft table leaves undefined are the C1 controls of the same value"""
+    if 0x80 <= b < 0xa0:
+        try:
+            return ord(bytes([b]).decode("cp1252"))
+        except UnicodeDecodeError:
+            return b
+    return b
+
+
+def ref_u2_clean(chars):
+    """code points -> code points: colour escapes (0x1b and the three characters after it, whatever they are;
+    fewer if the text ends), then the control characters 0x01-0x1a, then NULs at both ends"""
+    out, skip = [], 0
+    for c in chars:
+        if skip:
+            skip -= 1
+        elif c == 0x1b:
+            skip = 3
+        else:
+            out.append(c)
+    out = [c for c in out if not (0x01 <= c <= 0x1a)]
+    i, j = 0, len(out)
+    while i < j and out[i] == 0:
+        i += 1
+    while j > i and out[j - 1] == 0:
+        j -= 1
+    return out[i:j]
+
+
+def ref_u2_string(data, pos):
+    """the property for one Unreal 2 string at `pos`: (text as UTF-8 or None if the read must fail, position after)"""
+    if pos >= len(data):
+        return None, pos
+    lb = data[pos]
+    if lb < 0x80:
+        start, n = pos + 1, lb
+        if start + n > len(data):
+            return None, pos
+        chars = [_w1252(b) for b in data[start:start + n]]
+    else:
+        start = pos + 1
+        if start < len(data) and data[start] == 1:
+            start += 1
+        n = 2 * (lb - 0x80)
+        if start + n > len(data):
+            return None, pos
+        try:
+            chars = [ord(c) for c in data[start:start + n].decode("utf-16-le", "strict")]
+        except UnicodeDecodeError:
+            return None, pos
+    return "".join(chr(c) for c in ref_u2_clean(chars)).encode("utf-8"), start + n
 
 
 def ref_check_reader(case, impl):
@@ -285,6 +459,13 @@ def ref_check_reader(case, impl):
                     fails.append(("mcstring-accepts-invalid", f"vs at {pos} of {hexs[:60]}: not a well-formed string, accepted: {o[:80]}"))
             elif not ok or val != "x" + r[0].hex() or p2 != r[1]:
                 fails.append(("mcstring-decode", f"vs at {pos} of {hexs[:60]}…: expected {len(r[0])} bytes ending at {r[1]}, got {o[:80]}"))
+        elif head == "su2":
+            text, end = ref_u2_string(data, pos)
+            if text is None:
+                if ok or p2 != pos:
+                    fails.append(("reader-u2string-fail", f"{op} at {pos} of {hexs}: expected failure leaving position, got {o}"))
+            elif not ok or val != "x" + text.hex() or p2 != end:
+                fails.append(("reader-u2string", f"{op} at {pos} of {hexs}: expected x{text.hex()} ending at {end}, got {o}"))
         elif head == "vi":
             # reference VarInt decoder (Minecraft rule)
             res, shift, j, err = 0, 0, pos, None
